@@ -22,10 +22,11 @@ macro_rules! mk_inst {
            ("min", $k) => Some(Box::new(bounds::min::Min::<Tok, $k>::default()) as Box<dyn DynOwn>),
            ("bounds", $k) => Some(Box::new(bounds::Bounds::<Tok, $k>::default()) as Box<dyn DynOwn>),
            ("conv", $k) => Some(Box::new(convolve::Convolve::<Tok, $k>::with_config(convolve::Config { coefficients: core::array::from_fn(|_| Tok::new(1)) })) as Box<dyn DynOwn>),
+           ("convn", $k) => Some(Box::new(convolve::Convolve::<Tok, $k>::normalized(convolve::Config { coefficients: core::array::from_fn(|i| Tok::new(if i == 1 { 0 } else { 2 })) })) as Box<dyn DynOwn>),
            ("delay", $k) => Some(Box::new(Delay::<Tok, $k>::default()) as Box<dyn DynOwn>), )*
         _ => None } };
 }
-const KINDS: [&str; 7] = ["median", "mean", "max", "min", "bounds", "conv", "delay"];
+const KINDS: [&str; 8] = ["median", "mean", "max", "min", "bounds", "conv", "delay", "convn"];
 
 pub fn generate(tier: &str, rng: &mut Rng) -> Vec<Spec> {
     let t = tier == "thorough"; let mut v = vec![];
@@ -74,6 +75,6 @@ pub fn exec(s: &Spec, stats: &mut Stats) -> Outcome {
     let panic = !matches!(r, Ok(true));
     if let Ok(false) = r { return Outcome::Skip("width-not-instantiated"); }
     if panic { stats.panics += 1; }
-    let k = match kind.as_str() { "median" => "KMedian", "mean" => "KMean", "max" => "KMax", "min" => "KMin", "bounds" => "KBounds", "conv" => "KConv", _ => "KDelay" };
+    let k = match kind.as_str() { "median" => "KMedian", "mean" => "KMean", "max" => "KMax", "min" => "KMin", "bounds" => "KBounds", "conv" | "convn" => "KConv", _ => "KDelay" };
     Outcome::Case(format!("mk {} {}%nat [{}] {} {}%nat {}%nat {}", k, n, cops.join(";"), clist(&lives, |l| format!("{}%nat", l)), tok::anomalies(), tok::live(), cbool(panic)))
 }
